@@ -100,6 +100,7 @@ func (e *env) reader(cs *clientState, br *bufio.Reader) {
 	}
 	bad := func(sym, detail string) {
 		cs.streamBad = true
+		cs.endOnce.Do(func() { close(cs.endSeen) }) // nothing after this point is interpreted: do not wait for the end marker
 		e.violate("c14:"+wmode()+":"+sym, fmt.Sprintf("client #%d (%s): %s\nlast frames received: %s\nserver-side events of the connection:\n%s", cs.idx, cs.local, detail, strings.Join(recent, " "), e.log.Slice(cs.local, 25)))
 	}
 	for {
@@ -315,6 +316,9 @@ func (e *env) runClient(ci int, rng *rand.Rand, addr string, stopEngine func()) 
 			select {
 			case <-cs.endSeen:
 			default:
+				if cs.streamBad {
+					break
+				}
 				cls := "direct"
 				if v, ok := e.recs.Load(cs.local); ok {
 					cls = e.wmode(v.(*connRec))
@@ -336,7 +340,7 @@ func (e *env) runClient(ci int, rng *rand.Rand, addr string, stopEngine func()) 
 			}
 		}
 		_ = nc.Close()
-	case "server-close":
+	case "server-close", "server-closeandclean":
 		_ = e.sender(cs, rng, 0, c.InMsgs)
 	case "engine-stop":
 		stopAfter := rng.Intn(c.InMsgs + 1)
